@@ -101,8 +101,9 @@ def fold_h(g: nx.Graph) -> nx.Graph:
     return h
 
 
-def change_graph_from_rd(g: nx.Graph, fold: bool = True, negate: bool = False) -> nx.Graph:
-    """graph of changed bonds: edge label = order change, node label = (element, hydrogen-count change)"""
+def change_graph_from_rd(g: nx.Graph, fold: bool = True, negate: bool = False, isolated: bool = False) -> nx.Graph:
+    """graph of changed bonds: edge label = order change, node label = (element, hydrogen-count change, charge change);
+    with `isolated` also the atoms that change charge without lying on a changed bond"""
     if fold:
         g = fold_h(g)
     c = nx.Graph()
@@ -110,11 +111,17 @@ def change_graph_from_rd(g: nx.Graph, fold: bool = True, negate: bool = False) -
     for u, v, d in g.edges(data=True):
         if d["order"][0] != d["order"][1]:
             c.add_edge(u, v, d=sgn * (d["order"][1] - d["order"][0]))
+    if isolated:
+        for v, d in g.nodes(data=True):
+            l0, l1 = d["lab"]
+            if l0 and l1 and l0[3] != l1[3]:
+                c.add_node(v)
     for v in c.nodes:
         l0, l1 = g.nodes[v]["lab"]
         el = (l0 or l1)[0]
         dh = (l1[2] if l1 else 0) - (l0[2] if l0 else 0)
-        c.nodes[v]["lab"] = (el, sgn * dh)
+        dq = (l1[3] if l1 else 0) - (l0[3] if l0 else 0) if (l0 and l1) else 0
+        c.nodes[v]["lab"] = (el, sgn * dh, sgn * dq)
     return c
 
 
@@ -152,10 +159,48 @@ def apply(substrate: str, template, rid: str, invert: bool, strategy: str, autom
     return SynReactor(substrate, template, invert=invert, strategy=strategy, automorphism=automorphism, **mode_kwargs(rid))
 
 
-def templates_of(rsmi: str):
+def templates_of(rsmi: str, radii=()):
+    """reaction centre and full ITS; with `radii` also the centre plus every atom within r bonds (RadiusExpand)"""
     from synkit.IO.chem_converter import rsmi_to_its
 
-    return {"centre": rsmi_to_its(rsmi, core=True), "full": rsmi_to_its(rsmi, core=False)}
+    full = rsmi_to_its(rsmi, core=False)
+    out = {"centre": rsmi_to_its(rsmi, core=True), "full": full}
+    if radii:
+        from synkit.Graph.Context.radius_expand import RadiusExpand
+
+        for r in radii:
+            k = RadiusExpand.extract_k(full, n_knn=r)
+            if k.number_of_nodes() not in (out["centre"].number_of_nodes(), full.number_of_nodes()) and all(k.number_of_nodes() != v.number_of_nodes() for n, v in out.items() if n.startswith("r")):
+                out[f"r{r}"] = k
+    return out
+
+
+def partial_context_templates(centre: nx.Graph, full: nx.Graph, limit: Optional[int]):
+    """centre + first neighbours + ONE atom of the second shell, for every such atom (quick: `limit` of them, atoms that
+    have a same-element sibling with another charge or hydrogen count in that shell first): context that names one of
+    several look-alike atoms"""
+    c = set(centre.nodes)
+    r1 = set(c)
+    for v in c:
+        r1.update(full[v])
+    r2 = set()
+    for v in r1:
+        r2.update(full[v])
+    r2 -= r1
+    if not r2 or len(r1) + 1 >= full.number_of_nodes():
+        return {}
+
+    def lab(v):
+        t = full.nodes[v]["typesGH"][0]
+        return t[0], (t[2], t[3])
+
+    def has_sibling(v):
+        return any(w != v and lab(w)[0] == lab(v)[0] and lab(w)[1] != lab(v)[1] for w in r2)
+
+    order = sorted(r2, key=lambda v: (not has_sibling(v), v))
+    if limit is not None:
+        order = order[:limit]
+    return {f"p{v}": full.subgraph(r1 | {v}).copy() for v in order}
 
 
 def sides(rsmi: str):
@@ -168,7 +213,7 @@ def formula_balanced(rsmi: str) -> Optional[bool]:
 
 
 # ----------------------------------------------------------------------------- C03 judgement of one application
-def judge_outputs(sr, substrate_canon: str, invert: bool, tpl_change: Optional[nx.Graph], ctx: str, fails: List[Fail], key: str, rule_balanced: bool = True, tpl_change_h: Optional[nx.Graph] = None):
+def judge_outputs(sr, substrate_canon: str, invert: bool, tpl_change: Optional[nx.Graph], ctx: str, fails: List[Fail], key: str, rule_balanced: bool = True, tpl_change_h: Optional[nx.Graph] = None, isolated: bool = False):
     outs = sr.smarts_list
     n_bad = 0
     for o in outs:
@@ -182,7 +227,7 @@ def judge_outputs(sr, substrate_canon: str, invert: bool, tpl_change: Optional[n
             return
     if tpl_change is not None:
         for its in sr.its_list:
-            cg = change_graph_from_rd(its_to_rdlike(its))
+            cg = change_graph_from_rd(its_to_rdlike(its), isolated=isolated)
             if tpl_change_h is not None:
                 cgh = change_graph_from_rd(its_to_rdlike(its), fold=False)
                 if not same_change(tpl_change_h, cgh):
@@ -213,10 +258,13 @@ def check_c03_c04(case):
     n = 0
     want = er.canon_rxn(s)
     rc, pc = sides(s)
-    tpls = templates_of(s)
+    tpls = templates_of(s, radii=(1, 2))
+    tpls["string"] = s  # the reaction string itself as template, used forwards and then backwards in this process
+    tpls.update(partial_context_templates(tpls["centre"], tpls["full"], None if TIER[0] != "quick" else 4))
     g = rd_its(s)
     ch_f = change_graph_from_rd(g)
     ch_b = change_graph_from_rd(g, negate=True)
+    chi = {False: change_graph_from_rd(g, isolated=True), True: change_graph_from_rd(g, negate=True, isolated=True)}
     explicit_mode = not mode_kwargs(rid)
     chh = {False: change_graph_from_rd(g, fold=False), True: change_graph_from_rd(g, fold=False, negate=True)} if explicit_mode else {False: None, True: None}
     centre_ok = centre_carries_all_changes(s)
@@ -224,16 +272,19 @@ def check_c03_c04(case):
     skipped_big = 0
     for kind, tpl in tpls.items():
         for invert in (False, True):
-            for strat in (("all", "comp", "bt") if TIER[0] != "quick" else (("all", "bt") if kind == "centre" else ("bt",))):
+            for strat in (("all", "comp", "bt") if TIER[0] != "quick" else (("all", "bt") if kind == "centre" else (("bt", "comp") if kind == "full" else ("bt",)))):
                 sr = apply(pc if invert else rc, tpl, rid, invert, strat)
                 key = f"{kind},{'bwd' if invert else 'fwd'},{strat}"
                 if len(sr.mappings) > MAX_MATCHES:
                     skipped_big += 1  # gluing > MAX_MATCHES matches of a full-ITS template costs minutes; counted, not judged
                     continue
-                outs = judge_outputs(sr, pc if invert else rc, invert, ch_b if invert else ch_f, key, fails, key, rule_balanced=(kind == "full" or centre_ok), tpl_change_h=chh[invert])
+                carries_all = kind in ("full", "string") or centre_ok  # then an atom off the changed bonds may not change its charge either
+                outs = judge_outputs(sr, pc if invert else rc, invert, chi[invert] if carries_all else (ch_b if invert else ch_f), key, fails, key, rule_balanced=carries_all, tpl_change_h=chh[invert], isolated=carries_all)
                 n += 1
                 if outs is None:
                     continue
+                if kind.startswith(("r", "p")):
+                    continue  # C04 states regeneration for the centre and the full template only
                 if kind == "centre" and not centre_ok:
                     continue
                 if kind == "centre" and strat == "comp" and len((pc if invert else rc).split(".")) > centre_pattern_components(s, invert):
@@ -352,6 +403,96 @@ def check_foreign(case):
     return Outcome(nontrivial=nout > 0, outcome=f"outs{min(nout, 9)}", fails=fails, transitions=n)
 
 
+# ----------------------------------------------------------------------------- chained applications (round trips on doubled substrates)
+def centre_string(rsmi: str) -> Optional[str]:
+    """the reaction centre written as a reaction string (RDKit fragment SMILES of the centre atoms, hydrogen counts in
+    brackets); None when SynKit does not read it back as the centre template"""
+    from synkit.IO.chem_converter import rsmi_to_its
+
+    cm = set(centre_maps(rsmi))
+    pr = er.parse(rsmi)
+    if pr is None or not cm:
+        return None
+    parts = []
+    for m in pr:
+        idx = [a.GetIdx() for a in m.GetAtoms() if a.GetAtomMapNum() in cm]
+        if not idx:
+            return None
+        try:
+            parts.append(Chem.MolFragmentToSmiles(m, atomsToUse=idx, allHsExplicit=True, canonical=False))
+        except Exception:
+            return None
+    t = ">>".join(parts)
+    try:
+        back = rsmi_to_its(t)
+        want = rsmi_to_its(rsmi, core=True)
+    except Exception:
+        return None
+    same = rm.isomorphic(back, want, lambda x, y: x.get("typesGH") == y.get("typesGH"), lambda x, y: tuple(x.get("order")) == tuple(y.get("order")))
+    return t if same and back.number_of_nodes() == want.number_of_nodes() else None
+
+
+def doubled(side: str) -> str:
+    return side + "." + side
+
+
+def check_round_trip(case):
+    """the template as a *string*, applied forwards to two copies of the reactants, then backwards to each product mixture
+    (and, under another numbering, backwards first): every reaction on the way is judged like a single application, and
+    the backward step must lead back to the mixture it started from"""
+    from synkit.Synthesis.Reactor.syn_reactor import SynReactor
+
+    rid, s = case
+    kw = mode_kwargs(rid)
+    fails = []
+    n = 0
+    rc, pc = sides(s)
+    g = rd_its(s)
+    centre_ok = centre_carries_all_changes(s)
+    chi = {False: change_graph_from_rd(g, isolated=True), True: change_graph_from_rd(g, negate=True, isolated=True)}
+    explicit_mode = not kw
+    chh = {False: change_graph_from_rd(g, fold=False), True: change_graph_from_rd(g, fold=False, negate=True)} if explicit_mode else {False: None, True: None}
+    maps = er.all_maps(s)
+    s2 = er.renumber(s, er.shift_map(maps, 1))
+    strings = {}
+    cs = centre_string(s) if centre_ok else None
+    if cs:
+        strings["centre"] = (cs, centre_string(s2))
+    strings["full"] = (s, s2)
+    chained = 0
+    for kind, (t_fwd_first, t_bwd_first) in strings.items():
+        for first_inv, t in ((False, t_fwd_first), (True, t_bwd_first)):
+            if t is None:
+                continue
+            start = doubled(pc if first_inv else rc)
+            sr = SynReactor(start, t, invert=first_inv, strategy="bt", **kw)
+            if len(sr.mappings) > MAX_MATCHES:
+                continue
+            key = f"{kind},{'bwd' if first_inv else 'fwd'}-first"
+            outs = judge_outputs(sr, er.canon_side(start), first_inv, chi[first_inv], f"{key} step 1", fails, key + ",step1", tpl_change_h=chh[first_inv], isolated=True)
+            n += 1
+            if not outs:
+                continue
+            for o in outs[:2]:
+                r, p = er.split(o)
+                mid = er.canon_side(r if first_inv else p)
+                if mid is None:
+                    continue
+                sr2 = SynReactor(mid, t, invert=not first_inv, strategy="bt", **kw)
+                if len(sr2.mappings) > MAX_MATCHES:
+                    continue
+                outs2 = judge_outputs(sr2, mid, not first_inv, chi[not first_inv], f"{key} step 2 on {mid}", fails, key + ",step2", tpl_change_h=chh[not first_inv], isolated=True)
+                n += 1
+                if outs2 is None:
+                    break
+                chained += 1
+                back = {er.canon_side(er.split(x)[1 if first_inv else 0]) for x in outs2}
+                if er.canon_side(start) not in back:
+                    fails.append(Fail("round_trip_lost", f"{key}: from {mid} the opposite direction gives {len(outs2)} reactions, none leads back", f"one of them leads back to {er.canon_side(start)}", key_extra=key))
+                    break
+    return Outcome(nontrivial=chained > 0, outcome=f"chained{min(chained, 9)}", fails=fails, transitions=n)
+
+
 # ----------------------------------------------------------------------------- C05 / C11c
 def no_pruning():
     """context manager: symmetry pruning switched off by rebinding the module-level name the reactor calls"""
@@ -457,6 +598,27 @@ def check_c05(case):
             fails.append(Fail("bt_differs_from_comp", f"{'bwd' if invert else 'fwd'}: |bt|={len(Rbt)} |comp|={len(Rcomp)}", "fallback strategy returns the component-aware result when non-empty", key_extra=f"{'bwd' if invert else 'fwd'}"))
         if not Rcomp and Rbt != Rall:
             fails.append(Fail("bt_differs_from_all", f"{'bwd' if invert else 'fwd'}: |bt|={len(Rbt)} |all|={len(Rall)}", "fallback strategy returns the exhaustive result when the component-aware one is empty", key_extra=f"{'bwd' if invert else 'fwd'}"))
+        # the same invariance with symmetry pruning by rule automorphisms switched on
+        d = "bwd" if invert else "fwd"
+        aref = result_set(apply(sub, tpl0, rid, invert, "all", automorphism=True).smarts_list)
+        n += 1
+        for tag, v in tvars[1:] if TIER[0] != "quick" else tvars[1:5]:
+            R = result_set(apply(sub, rsmi_to_its(v, core=True), rid, invert, "all", automorphism=True).smarts_list)
+            n += 1
+            if R != aref:
+                fails.append(Fail("template_numbering_changes_results", f"{d} automorphism=True {tag}: {len(R)} results vs {len(aref)}; only here {sorted(R - aref)[:1]} only there {sorted(aref - R)[:1]}",
+                                  "same set of distinct reactions", key_extra=f"{d},auto"))
+                break
+        for w in rew:
+            R = result_set(apply(w, tpl0, rid, invert, "all", automorphism=True).smarts_list)
+            n += 1
+            if R != aref:
+                fails.append(Fail("substrate_rewriting_changes_results", f"{d} automorphism=True {w}: {len(R)} results vs {len(aref)}", "same set of distinct reactions", key_extra=f"{d},auto"))
+                break
+        Rcomp_a = result_set(apply(sub, tpl0, rid, invert, "comp", automorphism=True).smarts_list)
+        n += 1
+        if not Rcomp_a <= aref:
+            fails.append(Fail("comp_not_subset_of_all", f"{d} automorphism=True: {sorted(Rcomp_a - aref)[:1]}", "component-aware results are a subset of the exhaustive ones", key_extra=f"{d},auto"))
     return Outcome(nontrivial=nontriv, outcome="c05", fails=fails, transitions=n)
 
 
@@ -660,6 +822,7 @@ def c03_subs(tier, seed):
     setup(tier, seed)
     return [
         Sub("own_template", gen_rxn, lambda c: split_fails(check_c03_c04(c), "C03"), key=lambda c: c[0], rule="own-template applications"),
+        Sub("round_trip", gen_rxn, check_round_trip, key=lambda c: c[0], rule="template as reaction string (centre and full) on two copies of the reactants, then the opposite direction on each product mixture; also backwards first under another numbering"),
         Sub("foreign_template", gen_foreign, check_foreign, key=lambda c: f"{c[0]}->{c[2]}", rule="foreign-template applications"),
         Sub("wildcard_rules", gen_wildcard, check_wildcard, key=lambda c: f"{c[0]} @ {c[1]}", rule="4 wildcard rules x 12 substrates (group present / absent), substrate as SMILES and as graph under 5 node numberings"),
     ]
